@@ -98,9 +98,11 @@ extern "C" void harness_c08_stringify() {
   SYMBOLIC_STRING(src, b, LMAX, n);
   std::string r = CPPManifest::stringify(src);
 #ifndef TOTALITY
+  // the result is at most 2*LMAX+2 <= 15 bytes, i.e. it lives in the string's own small buffer (the heap path is
+  // cut and asserted unreachable): read that buffer directly instead of through the string's data pointer
   bool same = r.size() == (size_t)rn;
   for (int i = 0; i < 2 * LMAX + 2; i++)
-    if (same && i < rn && r[i] != ref[i]) same = false;
+    if (same && i < rn && r._M_local_buf[i] != ref[i]) same = false;
   ASSERT(same, "C08 # operator: result is the argument spelling quoted, with \\ before each \" and \\ of string/char literals (C11 6.10.3.2p2)");
 #else
   ASSERT(r.size() >= (size_t)n + 2, "C15 stringify returns a quoted string");
@@ -129,6 +131,7 @@ struct RefArgs {
   int end[AMAX + 1];
   int pos;               // position just past the matching ')'
   bool wellformed;       // starts (after blanks) with '(' and has a matching ')', all literals closed
+  bool open_literal;     // a literal inside the parentheses is not closed before the end of the text
 };
 
 // Reference splitter (C11 6.10.3p11): the arguments are separated by the commas
@@ -136,7 +139,7 @@ struct RefArgs {
 // literals, which are single tokens); surrounding blanks are not part of an
 // argument; empty arguments count.
 static void ref_split(const char *s, int n, RefArgs *R) {
-  R->n = 0; R->pos = 0; R->wellformed = false;
+  R->n = 0; R->pos = 0; R->wellformed = false; R->open_literal = false;
   int i = 0;
   while (i < n && s[i] == ' ') i++;
   if (i >= n || s[i] != '(') return;
@@ -153,7 +156,7 @@ static void ref_split(const char *s, int n, RefArgs *R) {
         if (s[j] == '\\') j++;
         j++;
       }
-      if (j >= n) bad = true;
+      if (j >= n) { bad = true; R->open_literal = true; }
       i = j + 1;
       continue;
     }
@@ -189,6 +192,10 @@ extern "C" void harness_c08_extract_args() {
 #ifndef TOTALITY
   ASSUME(R.wellformed);
 #endif
+#ifdef EXCLUDE_UNTERMINATED_LITERAL
+  // KNOWN crashing class (C15): a string/char literal inside the parentheses that is never closed, e.g. F("a
+  ASSUME(!R.open_literal);
+#endif
   CPPPreprocessor *pp = make_pp();
   // variadic with no named parameter: neither "Not enough" nor "Too many arguments" can fire (building those
   // message texts needs heap strings, which these harnesses cut away; the texts are not part of the claim)
@@ -206,12 +213,14 @@ extern "C" void harness_c08_extract_args() {
   bool same = args->size() == (size_t)R.n;
   for (int k = 0; k < AMAX + 1; k++) {
     if (!same || k >= R.n) break;
-    const std::string &a = (*args)[k];
+    // arguments are at most AMAX <= 15 bytes: they live in the strings' own small buffers, which are read directly
+    // (constant offsets inside the vector's storage) instead of through each string's data pointer
+    const std::string &a = args->_M_impl._M_start[k];
     int len = R.end[k] - R.start[k];
-    if (a.size() != (size_t)len) { same = false; break; }
+    if (a._M_string_length != (size_t)len) { same = false; break; }
     for (int j = 0; j < AMAX; j++) {
       if (j >= len) break;
-      if (a[j] != b[R.start[k] + j]) same = false;
+      if (a._M_local_buf[j] != b[R.start[k] + j]) same = false;
     }
   }
   ASSERT(same, "C08 every extracted argument is the text between its separators with surrounding blanks removed");
